@@ -91,6 +91,14 @@ def check_hypotheses(ctx, dag, prog):
         pop = d.get("primitive_op")
         if pop is None or not isinstance(pop.pipeline.config, BlockwiseSpec):
             continue
+        # hypotheses of C02_guards_imply_side_conditions / C02_structural_step_preserves on the record dag
+        # (`Describes`: every source array of the op is an in-edge of its node; `hsrc`), checked on the unoptimized dag
+        ine = {u for u, _ in dag.in_edges(name)}
+        ctx.dist["hyp:sources-are-in-edges"] += 1
+        missing = [a for a in pop.source_array_names if a not in ine]
+        if missing and not d.get("fused"):
+            ctx.fail("hypothesis Describes violated: source arrays %s of op %s are not in-edges of its dag node" % (missing, name),
+                     {"program": prog, "op": d.get("op_name")})
         f = pop.pipeline.config.back_key_function
         coords = list(itertools.islice(iter(pop.pipeline.mappable), 12))
         for c in coords:
